@@ -33,6 +33,26 @@ macro_rules! twin {
 twin!(TwU8,u8; TwI8,i8; TwU16,u16; TwI16,i16; TwU32,u32; TwI32,i32; TwU64,u64; TwI64,i64;
 	TwU128,u128; TwI128,i128; TwF32,f32; TwF64,f64);
 
+/// hand-written codec that declares its fixed encoded size (5 bytes on the wire, 8 in memory): arrays of it must
+/// report the wire size, not the memory size
+#[derive(Clone, Copy, Debug, PartialEq, Default)]
+pub struct Hdr { pub kind: u8, pub value: u32 }
+impl Encode for Hdr {
+	fn size_hint(&self) -> usize { 5 }
+	fn encode_to<W: Output + ?Sized>(&self, dest: &mut W) { self.kind.encode_to(dest); self.value.encode_to(dest) }
+}
+impl Decode for Hdr {
+	fn decode<I: Input>(input: &mut I) -> Result<Self, Error> { Ok(Hdr { kind: u8::decode(input)?, value: u32::decode(input)? }) }
+	fn encoded_fixed_size() -> Option<usize> { Some(5) }
+}
+impl DecodeWithMemTracking for Hdr {}
+impl Reg for Hdr {
+	fn name() -> String { "Hdr".into() }
+	fn descr() -> Value { json!({"k":"tuple","ts":[u8::descr(), u32::descr()],"sz":size_of::<Self>(),"fx":5}) }
+	fn gen(g: &mut G) -> Self { Hdr { kind: u8::gen(g), value: u32::gen(g) } }
+	fn abs(&self) -> Value { json!([Reg::abs(&self.kind), Reg::abs(&self.value)]) }
+}
+
 // ---------------------------------------------------------------- derived types
 
 #[cfg(feature = "derive")]
@@ -359,6 +379,66 @@ mod derived {
 				EMelCompact::C(_) => json!({"i":0,"fs":[]}),
 			}
 		}
+	}
+
+	/// variants with the same field types but different wire forms (plain first, compact / encoded_as after)
+	#[derive(Encode, Decode, DecodeWithMemTracking, Debug, PartialEq, Clone, Copy)]
+	#[cfg_attr(feature = "max-encoded-len", derive(MaxEncodedLen))]
+	pub enum EMelShapes {
+		Raw(u32),
+		Packed(#[codec(compact)] u32),
+		Wide { a: u64, b: u8 },
+		Enc { #[codec(encoded_as = "Compact<u64>")] a: u64, b: u8 },
+	}
+	impl Reg for EMelShapes {
+		fn name() -> String { "EMelShapes".into() }
+		fn descr() -> Value {
+			json!({"k":"enum","sz":size_of::<Self>(),"vs":[
+				variant(0, vec![u32::descr()]), variant(1, vec![Compact::<u32>::descr()]),
+				variant(2, vec![u64::descr(), u8::descr()]), variant(3, vec![Compact::<u64>::descr(), u8::descr()])]})
+		}
+		fn gen(g: &mut G) -> Self {
+			match g.below(4) {
+				0 => EMelShapes::Raw(u32::gen(g)),
+				1 => EMelShapes::Packed(if g.chance(1, 2) { u32::MAX - g.below(3) as u32 } else { u32::gen(g) }),
+				2 => EMelShapes::Wide { a: u64::gen(g), b: u8::gen(g) },
+				_ => EMelShapes::Enc { a: if g.chance(1, 2) { u64::MAX - g.below(3) as u64 } else { u64::gen(g) }, b: u8::gen(g) },
+			}
+		}
+		fn abs(&self) -> Value {
+			match self {
+				EMelShapes::Raw(a) => json!({"i":1,"fs":[a.abs()]}),
+				EMelShapes::Packed(a) => json!({"i":2,"fs":[digits(*a as u128, 4)]}),
+				EMelShapes::Wide { a, b } => json!({"i":3,"fs":[a.abs(), b.abs()]}),
+				EMelShapes::Enc { a, b } => json!({"i":4,"fs":[digits(*a as u128, 8), b.abs()]}),
+			}
+		}
+	}
+
+	/// CompactAs over a 16-bit integer (the compact form of u16 is up to 4 bytes, not 2 + 1)
+	#[derive(CompactAs, Encode, Decode, DecodeWithMemTracking, Debug, PartialEq, Clone, Copy)]
+	#[cfg_attr(feature = "max-encoded-len", derive(MaxEncodedLen))]
+	pub struct CA16(pub u16);
+	impl Reg for CA16 {
+		fn name() -> String { "CA16".into() }
+		fn descr() -> Value { tuple_descr(vec![u16::descr()], size_of::<Self>()) }
+		fn gen(g: &mut G) -> Self { CA16(u16::gen(g)) }
+		fn abs(&self) -> Value { json!([self.0.abs()]) }
+	}
+	impl Reg for Compact<CA16> {
+		fn name() -> String { "Compact<CA16>".into() }
+		fn descr() -> Value { json!({"k":"compact","w":2,"sz":2}) }
+		fn gen(g: &mut G) -> Self { Compact(CA16(if g.chance(1, 3) { u16::MAX - g.below(3) as u16 } else { u16::gen(g) })) }
+		fn abs(&self) -> Value { digits(self.0 .0 as u128, 2) }
+	}
+	#[derive(Encode, Decode, DecodeWithMemTracking, Debug, PartialEq, Clone, Copy)]
+	#[cfg_attr(feature = "max-encoded-len", derive(MaxEncodedLen))]
+	pub struct SMelCA16 { #[codec(compact)] pub port: CA16, pub up: bool }
+	impl Reg for SMelCA16 {
+		fn name() -> String { "SMelCA16".into() }
+		fn descr() -> Value { tuple_descr(vec![Compact::<u16>::descr(), bool::descr()], size_of::<Self>()) }
+		fn gen(g: &mut G) -> Self { SMelCA16 { port: Compact::<CA16>::gen(g).0, up: bool::gen(g) } }
+		fn abs(&self) -> Value { json!([digits(self.port.0 as u128, 2), self.up.abs()]) }
 	}
 
 	/// every field skipped: the encoding is empty but the in-memory size is not (known finding for C09)
